@@ -887,6 +887,8 @@ def abstract(h, side):
     awaiting_reply = None    # ref flag of a handler that has finished and whose response has not been seen yet
     close_req_seq = None     # seq of the HANDLE_CLOSE request received
     skip_poll_fail = 0
+    delivering = False       # the last transport call of this side completed the receipt of a RESPONSE: what follows, until
+                             # its next transport call, happens inside `_deliver_response` (decode, result callbacks)
     synth = [800000]
     written = {}
     for e in ev:
@@ -939,8 +941,13 @@ def abstract(h, side):
                 elif last_r is not None:
                     toks[last_r] = toks[last_r][:-1] + c
             continue
+        if t in ("recv", "poll") or (t == "write" and e.get("handler") != consts.HANDLE_DEL) or t.startswith("api_"):
+            was_delivering, delivering = delivering, False
+        else:
+            was_delivering = delivering
         if t == "write":
             msg = e["msg"]
+            delivering = was_delivering     # (consulted below; cleared after this entry)
             if msg == consts.MSG_REQUEST:
                 if e.get("handler") == consts.HANDLE_CLOSE:
                     flush_reply()
@@ -956,6 +963,9 @@ def abstract(h, side):
                 ref = "T" if e.get("ref") else "F"
                 if e["own_closed"]:
                     toks.append("is%d:%s" % (s, ref))
+                elif not e["ok"] and delivering and e.get("handler") != consts.HANDLE_DEL:
+                    toks.append("fn%d" % s)       # made while a response was being delivered: met while serving
+                    last_r = len(toks) - 1
                 elif not e["ok"]:
                     toks.append("fq%d" % s)
                 else:
@@ -996,7 +1006,11 @@ def abstract(h, side):
                         close_req_seq = f["seq"]
                 else:
                     toks.append("rp%d:%d" % (f["seq"], frame_val(f)))
+                    delivering = True
+                    pending_frame = None
+                    continue
             pending_frame = None
+            delivering = False
             continue
         if t == "poll":
             if e.get("oserr"):
